@@ -90,9 +90,6 @@ def seqWord {ι : Type} (fmt : ι → String) (posOf : ι → List Nat) (cols : 
 
 /-! ### the per-operation specification -/
 
-def le8 (a b : Nat) : Bool := a % 8 ≤ b % 8
-def leNat (a b : Nat) : Bool := a ≤ b
-
 def specStep (cx : Ctx) (line : String) (robs : RObs) : Option SExp :=
   let data := cx.prev.data
   let t := cx.td
@@ -163,75 +160,40 @@ def specStep (cx : Ctx) (line : String) (robs : RObs) : Option SExp :=
           | some (toks, ys, mustPanic) =>
             let d := if op = "cells_mut" ∨ op = "iter_mut" then bump data ys 1000 else data
             pure { same with status := if mustPanic then "panic" else "ok", toks := some toks, data := some d }
-        -- C13
-        | "swap", [c1, r1, c2, r2] => do
-          let c1 ← nat c1; let r1 ← nat r1; let c2 ← nat c2; let r2 ← nat r2
-          if rc.inRange c1 r1 ∧ rc.inRange c2 r2 then pure (perm (swapCellG (c1, r1) (c2, r2))) else pure .panic
-        | "swap_rows", [r1, r2] => do
-          let r1 ← nat r1; let r2 ← nat r2
-          if r1 < v.numRows ∧ r2 < v.numRows then pure (perm (swapRowsG r1 r2)) else pure .panic
-        | "swap_cols", [c1, c2] => do
-          let c1 ← nat c1; let c2 ← nat c2
-          if c1 < v.numCols ∧ c2 < v.numCols then pure (perm (swapColsG c1 c2)) else pure .panic
+        -- C13 (row_pair)
         | "row_pair", [r1, r2] => do
           let r1 ← nat r1; let r2 ← nat r2
           if r1 < v.numRows ∧ r2 < v.numRows ∧ r1 ≠ r2 then
             let w1 := v.rowWin r1; let w2 := v.rowWin r2
             pure { same with toks := some [fmtWin w1, fmtWin w2], data := some (bump (bump data w1.positions 1000) w2.positions 2000) }
           else pure .panic
-        | "fill", [x] => do let x ← nat x; pure (upd fun _ => some x)
-        -- C14
-        | "copy_from_slice", [l] | "clone_from_slice", [l] => do
-          let src ← parseList l
-          if v.numCols * v.numRows = src.length then pure (upd fun cr => src[cr.2 * v.numCols + cr.1]?) else pure .panic
-        | "copy_within", [c0, r0, c1, r1, dc, dr] => do
-          let c0 ← nat c0; let r0 ← nat r0; let c1 ← nat c1; let r1 ← nat r1; let dc ← nat dc; let dr ← nat dr
-          if rectsFit v.numCols v.numRows (c0, r0) (c1, r1) (dc, dr) then pure (upd (copyWithinCells v data (c0, r0) (c1, r1) (dc, dr)))
-          else pure .panic
-        -- C15
-        | "translate", [mc, mr] => do
-          let mc ← nat mc; let mr ← nat mr
-          if mc ≤ v.numCols ∧ mr ≤ v.numRows then pure (perm (translateG v.numCols v.numRows mc mr)) else pure .panic
-        | "flip_rows", [] => pure (perm (flipRowsG v.numRows))
-        | "flip_cols", [] => pure (perm (flipColsG v.numCols))
         | _, _ =>
-          if op = "copy_from_toodee" ∨ op = "clone_from_toodee" then
-            match args with
-            | c :: r :: l :: rest => do
-              let c ← nat c; let r ← nat r; let src ← parseList l
-              let sv : Option VW :=
-                match rest.mapM nat with
-                | some [c0, r0, c1, r1] => specView ⟨⟨0, src.length⟩, c, r, c⟩ (c0, r0) (c1, r1)
-                | _ => some ⟨⟨0, src.length⟩, c, r, c⟩
-              match sv with
-              | none => pure .panic
-              | some sv =>
-                if v.numCols = sv.numCols ∧ v.numRows = sv.numRows then pure (upd fun cr => src[sv.pos cr.1 cr.2]?) else pure .panic
-            | _ => none
-          else if op.startsWith "sort_" then
+          -- C04, C13–C17: every other in-place operation is judged by **the specification the property theorems are about**,
+          -- `MOp.spec` (Spec/OpsSpec.lean), evaluated on the receiver's rectangle `v` of the harness's previous buffer
+          let ofSpec (mop : MOp Nat) : SExp :=
+            match mop.spec v sideLimit data with
+            | .ok d => { same with data := some d }
+            | .error _ => .panic
+          if op.startsWith "sort_unstable" then
+            -- the unstable variants: *some* permutation that orders the keys (std's contract), applied to whole lines
             match args with
             | [k] => do
               let k ← nat k
               let byRow := (op.splitOn "_row").length > 1
-              let le := if op.endsWith "_ord" then leNat else le8
               let dim := if byRow then v.numRows else v.numCols
               if ¬ k < dim then pure .panic else
               let line : List Nat := if byRow then (v.rowWin k).positions else rc.colCells k
               let keys := line.map (getD data)
-              if !(op.startsWith "sort_unstable") then
-                let p := stablePerm le keys
-                pure (perm (if byRow then sortColsG p else sortRowsG p))
-              else
-                -- C16/C17 for the unstable variants: *some* permutation that orders the keys, applied to whole lines
-                if robs.status ≠ "ok" then pure { same with data := none }
-                else match reconstructPerm data robs.st.data line with
-                  | none => none
-                  | some p =>
-                    if isPermOfRange p && sortedBy le (p.map fun i => keys.getD i 0) then
-                      pure (perm (if byRow then sortColsG p else sortRowsG p))
-                    else pure { same with toks := some ["key-line-not-a-sorted-permutation"] }
+              if robs.status ≠ "ok" then pure { same with data := none }
+              else match reconstructPerm data robs.st.data line with
+                | none => none
+                | some p =>
+                  if isPermOfRange p && sortedBy (sortLe op) (p.map fun i => keys.getD i 0) then
+                    (parseMOp cx op args (sideGiven p)).map ofSpec
+                  else pure { same with toks := some ["key-line-not-a-sorted-permutation"] }
             | _ => none
-          else none
+          else
+            (parseMOp cx op args (sideStable (sortLe op))).map ofSpec
   | _ => none
 
 def checkSExp (e : SExp) (r : RObs) : List String :=
